@@ -167,6 +167,17 @@ func (idx *FlatIndex) Train(vectors []VectorNode) error {
 //
 // Thread-safety: Acquires exclusive lock, blocking all searches during addition
 func (idx *FlatIndex) Add(vector VectorNode) error {
+	// Re-adding a soft-deleted ID is an update (remove + add): compact first so
+	// that the stale entry and its tombstone cannot shadow the new vector.
+	idx.mu.RLock()
+	stale := idx.deletedNodes.Contains(vector.ID())
+	idx.mu.RUnlock()
+	if stale {
+		if err := idx.Flush(); err != nil {
+			return err
+		}
+	}
+
 	// Acquire exclusive write lock to prevent concurrent modifications and reads
 	idx.mu.Lock()
 	defer idx.mu.Unlock()
